@@ -227,7 +227,7 @@ FormFullA(int n, int_t *nonz, float **nzval, int_t **rowind, int_t **colptr)
 	    ++marker[col];
 	}
 
-    new_nnz = *nonz * 2 - n;
+    new_nnz = *nonz * 2; /* upper bound: diagonal entries may be absent */
     if ( !(a_colptr = intMalloc( n+1 ) ) )
 	ABORT("SUPERLU_MALLOC a_colptr[]");
     if ( !(a_rowind = intMalloc( new_nnz) ) )
@@ -260,6 +260,7 @@ FormFullA(int n, int_t *nonz, float **nzval, int_t **rowind, int_t **colptr)
       
       a_colptr[j+1] = k;
     }
+    new_nnz = k; /* actual number of entries of the full matrix */
 
     printf("FormFullA: new_nnz = %lld\n", (long long) new_nnz);
 
